@@ -32,7 +32,7 @@ ASSUMPTIONS = [
     'perftrack steps run with the cyclic garbage collector disabled in the child so that the outcome is a deterministic '
     'function of the history (see the known finding about trainer liveness)',
 ]
-FLOORS = {'cross-process-load': 0.6, 'incremental': 0.3, 'serve': 0.1, 'perftrack': 0.05, 'explicit-generation': 0.1, 'same-process-use': 0.08}
+FLOORS = {'cross-process-load': 0.6, 'incremental': 0.3, 'serve': 0.1, 'perftrack': 0.05, 'explicit-generation': 0.1, 'same-process-use': 0.08, 'train-without-sink': 0.35}
 LEVEL_TEXT = (
     'Generated-history search against a reference model: every stateful actor is an uninterpreted symbol whose state term '
     'records which actor trained it, on what data and on top of which previous state, so after every apply/eval/serve step '
@@ -56,9 +56,31 @@ def _nstateful(expr):
 
 
 @st.composite
-def histories(draw):
-    expr = draw(opgen.expressions(depth=1, max_items=3).filter(_nstateful))
-    steps = [{'op': 'train'}]
+def fanout_tails(draw):
+    """Pipelines whose persistent order depends most on how the walk treats joins: a fan-out with a stateful actor in a
+    second or later branch, closed by (or followed by) further stateful actors, optionally behind a prefix."""
+    names = opgen._Names()  # pylint: disable=protected-access
+    k = draw(st.integers(2, 3))
+    kinds = draw(st.lists(st.sampled_from(['st', 'fn']), min_size=k, max_size=k).filter(lambda ks: 'st' in ks[1:]))
+    fan = {'op': 'mapreduce', 'name': names('mr'), 'mappers': [{'name': names('mm'), 'kind': kd, 'hp': {}} for kd in kinds]}
+
+    def stateful():
+        if draw(st.booleans()):
+            return {'op': 'smapper', 'name': names('sm'), 'hp': {}}
+        return {'op': 'simple', 'name': names('m'), 'hp': {}, 'mapper': 'st', 'apply': None, 'train': None, 'label': None}
+
+    items = [stateful()] if draw(st.booleans()) else []
+    items.append(fan)
+    items.extend(stateful() for _ in range(draw(st.integers(0, 2))))
+    if draw(st.integers(0, 3)) == 0:
+        items.append({'op': 'simple', 'name': names('m'), 'hp': {}, 'mapper': 'fn', 'apply': None, 'train': None, 'label': None})
+    return items[0] if len(items) == 1 else {'op': 'seq', 'items': items}
+
+
+@st.composite
+def histories(draw, exprs=None):
+    expr = draw((exprs if exprs is not None else opgen.expressions(depth=1, max_items=3)).filter(_nstateful))
+    steps = [{'op': 'train', 'nosink': draw(st.booleans())}]
     nsteps = draw(st.integers(2, 6))
     releases = 1
     for _ in range(nsteps):
@@ -69,9 +91,11 @@ def histories(draw):
             else:
                 releases += 1
                 steps.append({'op': 'release'})
-                steps.append({'op': 'train'})
+                steps.append({'op': 'train', 'nosink': draw(st.booleans())})
                 continue
         step = {'op': op}
+        if op == 'train':
+            step['nosink'] = draw(st.booleans())  # the CLI trains without a sink, runtime.Virtual with one
         if op == 'train' and draw(st.integers(0, 3)) == 0:
             # use the freshly committed generation in the *same* process (warm caches, same interpreter)
             step['then'] = draw(st.sampled_from(['apply', 'serve', 'perftrack']))
@@ -216,7 +240,9 @@ def check_history(ctx, spec):
                     if step['then'] == 'perftrack':
                         use['nogc'] = os.environ.get('VF_C04_GC') != '1'
                     chain.append(use)
-                results = lc.run_step({'id': sid, 'op': 'train', 'nonce': nonce, 'release': None}, workdir, chain)
+                results = lc.run_step({'id': sid, 'op': 'train', 'nonce': nonce, 'release': None, 'nosink': bool(step.get('nosink'))}, workdir, chain)
+                if step.get('nosink'):
+                    cls.add('train-without-sink')
                 res = results[0]
                 if not res['ok']:
                     ctx.fail(spec, 'train-raises', f"{res['error']}@{res['frame']}", res['message'] + res.get('trace', '')[-600:])
@@ -295,4 +321,7 @@ def judge(ctx, spec, model, op, res, rel, gen, nonce, entries, where):
 
 
 def campaigns(ctx):
-    return [Campaign('history', histories(), check_history, 70, 400)]
+    return [
+        Campaign('history', histories(), check_history, 70, 400),
+        Campaign('fanout-tail', histories(fanout_tails()), check_history, 30, 200),
+    ]
